@@ -165,6 +165,14 @@ def run_once(d, sc, plan, exdev, ref):
         elif sc["preexisting"]:
             with iosim.real_open(full, "wb") as f:
                 f.write(old_bytes)
+        # neighbours a sloppy temp-file scheme might clobber; they must survive untouched
+        decoys = {}
+        if sc["preexisting"] != "dir":
+            for suffix in (".tmp", "~", ".bak", ".part", ".new"):
+                dp = full + suffix
+                with iosim.real_open(dp, "wb") as f:
+                    f.write(b"decoy " + suffix.encode())
+                decoys[dp] = b"decoy " + suffix.encode()
         before = sb.listing()
         states = []
 
@@ -223,6 +231,16 @@ def run_once(d, sc, plan, exdev, ref):
                 kind = "absent-but-written-elsewhere" if data is None and not plan else (
                     "truncated-or-partial" if isinstance(data, bytes) and len(data) < len(ref or b"") else "wrong-content")
                 raise Violation("C17", "all-or-nothing" if plan else "exact", kind, detail, facts)
+        for dp, content in decoys.items():
+            try:
+                with iosim.real_open(dp, "rb") as f:
+                    now = f.read()
+            except OSError:
+                now = None
+            if now != content:
+                detail["neighbour"] = os.path.basename(dp)
+                detail["neighbour_now"] = None if now is None else len(now)
+                raise Violation("C17", "exact", "neighbouring-file-changed", detail, facts)
         if sc["preexisting"] == "dir":
             facts["destination_is_directory"] = True
             if outcome == "returned":
